@@ -291,6 +291,17 @@ def _returns_fresh(funcs, fdef, depth=0, pos=None):
     return bool(rets) and all(_fresh_expr(funcs, fdef, r.value, depth, pos) for r in rets)
 
 
+_LOW_PRECISION = ('float32', 'float16', 'single', 'half', 'csingle', 'complex64', 'f4', 'f2', 'c8', 'longfloat_', 'float_16')
+
+
+def _is_dtype_position(tree, const):
+    """a string constant counts only where a dtype is expected: dtype=..., .astype(...), np.dtype(...)"""
+    for n_ in ast.walk(tree):
+        if isinstance(n_, ast.keyword) and n_.arg == 'dtype' and n_.value is const: return True
+        if isinstance(n_, ast.Call) and const in n_.args and isinstance(n_.func, ast.Attribute) and n_.func.attr in ('astype', 'dtype', 'view'): return True
+    return False
+
+
 def inplace_lint(chk, repo, rule, paths, floor_funcs=1):
     """repository rule (zero instances on the reference tree, positive fixture evaluated on every run): a numeric kernel never updates one of its arguments in place"""
     fx = ast.parse(_FIXTURE)
@@ -317,6 +328,13 @@ def inplace_lint(chk, repo, rule, paths, floor_funcs=1):
                     offenders.append(f'{fd.name} line {ln}: `{txt}` updates an argument (or a plain alias of one) in place; with array inputs the caller\'s array is modified and a second use sees the modified values')
         chk.ob(rule, f'{path}: no kernel updates one of its arguments in place (array calls must equal scalar calls, arguments stay intact)', not offenders, '; '.join(offenders[:3]), mod.rel(),
                key=f'{rule}|{path}', method='alias-aware augmented-assignment lint (fixture-checked)')
+        # reduced precision: a float32 / float16 / complex64 array or cast in a double-precision kernel loses half the digits (results and round trips are no longer "to rounding")
+        low = []
+        for n_ in ast.walk(mod.tree):
+            nm_ = n_.attr if isinstance(n_, ast.Attribute) else (n_.id if isinstance(n_, ast.Name) else (n_.value if isinstance(n_, ast.Constant) and isinstance(n_.value, str) else None))
+            if nm_ in _LOW_PRECISION and not (isinstance(n_, ast.Constant) and not _is_dtype_position(mod.tree, n_)):
+                low.append(f'line {getattr(n_, "lineno", "?")}: {nm_}')
+        chk.ob(rule, f'{path}: no reduced-precision (float32 / float16 / complex64) array or cast', not low, '; '.join(low[:3]), mod.rel(), key=f'{rule}|{path}|precision', method='dtype lint')
     if nfunc < floor_funcs:
         raise AnalysisError(f'in-place lint for {rule}: only {nfunc} functions scanned')
 
